@@ -538,3 +538,24 @@ def replay(ctx, verdict):
 
 def search(ctx, verdict, problems):
     return winlib.search(ctx, verdict, problems)
+
+
+# ---- "one write = one read, whole": the receive loop (switchboard.deplex) hands every Read result to the session as one
+# frame, so what TLSConn.Read returns together with an ERROR (a record cut short by a connection drop) must not be
+# handed on.  The receive-loop driver of C11 (harness/multiplex/c11_loop_test.go, winlib.c11_loop) has that family.
+_corr_before_loop = correspondence
+_replay_before_loop = replay
+
+
+def correspondence(ctx, verdict, pr):
+    res = _corr_before_loop(ctx, verdict, pr)
+    import winlib
+    res['broken'] += winlib.c11_loop(ctx, verdict)
+    return res
+
+
+def replay(ctx, verdict):
+    if ctx.replay.get('kind') == 'window' and ctx.replay.get('driver') == 'c11':
+        import winlib
+        return winlib.replay(ctx, verdict)
+    return _replay_before_loop(ctx, verdict)
